@@ -111,8 +111,11 @@ def gen_structured(ctx, n):
             t = r.random()
             if t < 0.15:
                 c["direction"] = {"kind": "str", "s": r.choice(["top", "side"])}
-            elif t < 0.4:
-                c["direction"] = {"kind": "vec", "v": r.choice([[1, 1, 1], [0, 0, 2], [1, 0, 0], [1, 2, 0], [1, -1, 3], [3, 0, 4], [-1, -2, -3]])}
+            elif t < 0.55:
+                c["direction"] = {"kind": "vec", "v": r.choice([[1, 1, 1], [0, 0, 2], [1, 0, 0], [1, 2, 0], [1, -1, 3], [3, 0, 4], [-1, -2, -3],
+                                                                  # normals whose in-plane axis u lies along a body diagonal of the cells
+                                                                  # (the footprint of a cell along u is then sqrt(3) half sizes wide)
+                                                                  [1, -2, 1], [1, 1, -2], [-2, 1, 1], [1, -2, 1], [2, -1, -1]])}
             else:
                 c["direction"] = {"kind": "vec", "v": [r.uniform(-1, 1) for _ in range(3)]}
         # window
@@ -221,6 +224,17 @@ def witness_cases():
     c = base_case(None, m, [{"key": "density", "kind": "scalar", "unit": "g/cm**3", "vals": [1.0, 2.0, 3.0, 4.0]}])
     c.update(origin=[0.5, 0.5, 0.0], direction={"kind": "letter", "s": "z"}, dx={"v": 1.0, "unit": "cm"}, res=4,
              tags=["witness", "2d", "letter", "boxcentre", "radial_2x2_full_window"])
+    out.append(c)
+    # an in-plane axis along a body diagonal of the cells: the footprint of a cell along u is sqrt(3) half sizes wide
+    # (normal (1, -2, 1) makes `perpendicular_vector` choose u = (1, 1, 1) / sqrt 3); pixels much smaller than the cells
+    m = M.uniform_mesh(3, 4)
+    c = base_case(None, m, [{"key": "density", "kind": "scalar", "unit": "g/cm**3", "vals": [float(i + 1) for i in range(64)]}])
+    den = m["den"]
+    side = Fraction(m["box"]["side"], den)
+    mid = [float(Fraction(lo, den) + side / 2) for lo in m["box"]["lo"]]
+    c.update(origin=[mid[0] + 0.013 * float(side), mid[1] - 0.021 * float(side), mid[2] + 0.037 * float(side)],
+             direction={"kind": "vec", "v": [1, -2, 1]}, dx={"v": float(side) / 2, "unit": "cm"}, res=48,
+             tags=["witness", "3d", "vec", "generic", "u_along_body_diagonal"])
     out.append(c)
     return out
 
